@@ -347,7 +347,11 @@ def run_case(case, ctx, st):
                           expected="fit returns")
             return
         # (d) final score = root score + sum of recorded gains
-        kernel = est._compute_kernel(X, y)
+        if pre:
+            kernel = np.asarray(y, dtype=float)
+        else:
+            from sklearn.metrics import pairwise_kernels
+            kernel = pairwise_kernels(np.asarray(X, dtype=float), metric=params["kernel"])   # the configured kernel, computed here
         root = ref.objective_fast(np.zeros(n, dtype=int), kernel)
         total = root + float(sum(est.tree_.gains))
         sc = float(est.score(X, y))
